@@ -32,5 +32,17 @@ fn grow(loc: ValuePointerRef, model: &mut Vec<St>, left: u8) {
     }
 }
 pub fn value_paths() { let mut m = Vec::new(); grow(ValuePointerRef::Origin, &mut m, 6); }
+/// long paths (7..=40 steps): a repeating pattern of the four steps starting at a chosen phase, checked at every length on the way
+fn grow_long(loc: ValuePointerRef, model: &mut Vec<St>, phase: usize, left: usize) {
+    check(loc, model);
+    if left == 0 { return; }
+    match (model.len() + phase) % 4 {
+        0 => { model.push(St::K(KEYS[0])); grow_long(loc.push_key(KEYS[0]), model, phase, left - 1) }
+        1 => { model.push(St::I(IDX[0])); grow_long(loc.push_index(IDX[0]), model, phase, left - 1) }
+        2 => { model.push(St::I(IDX[1])); grow_long(loc.push_index(IDX[1]), model, phase, left - 1) }
+        _ => { model.push(St::K(KEYS[1])); grow_long(loc.push_key(KEYS[1]), model, phase, left - 1) }
+    }
+}
+pub fn value_long_paths() { let mut m = Vec::new(); grow_long(ValuePointerRef::Origin, &mut m, nd::below(4) as usize, 40); }
 
-pub fn registry() -> Vec<(&'static str, crate::Body)> { vec![("value_paths", value_paths as crate::Body)] }
+pub fn registry() -> Vec<(&'static str, crate::Body)> { vec![("value_paths", value_paths as crate::Body), ("value_long_paths", value_long_paths)] }
